@@ -183,6 +183,16 @@ class Env:
     def mark(self):
         return len(self.ctx.pc) if self.sym else 0
 
+    def _export(self, sv):
+        """thorough tier: the first few discharged queries of an instance are exported as SMT-LIB2 for the second solver"""
+        if not os.environ.get('VERIF_EXPORT_SMT2') or getattr(self, '_exported', 0) >= 3:
+            return None
+        self._exported = getattr(self, '_exported', 0) + 1
+        try:
+            return sv.to_smt2()
+        except Exception:
+            return None
+
     def _abstract_query(self, ctx, pc, e, srs, lemmas=None, light=False):
         """generalise the query: the listed intermediate results (SR objects) are replaced by fresh variables
         (numerator and denominator separately, denominator != 0) in the claim, the assumptions, the path condition
@@ -255,7 +265,7 @@ class Env:
                 self.stats['queries'] += 1; self.stats['solver_s'] += dt; self.stats['max_query_s'] = max(self.stats['max_query_s'], dt)
                 if r == 'unsat':
                     self.stats['abstracted'] = self.stats.get('abstracted', 0) + 1
-                    self.results.append(dict(key=key, verdict='holds', s=round(dt, 3), canary=False, abstracted=True,
+                    self.results.append(dict(key=key, verdict='holds', s=round(dt, 3), canary=False, abstracted=True, smt2=self._export(sv),
                                              path=''.join('T' if d[0] else 'F' for d in ctx.decisions[:ctx.pos])))
                     return
         if not canary and (ctx.side or ctx.uf):
@@ -269,7 +279,7 @@ class Env:
             self.stats['queries'] += 1; self.stats['solver_s'] += dt; self.stats['max_query_s'] = max(self.stats['max_query_s'], dt)
             if r == 'unsat':
                 self.stats['light'] = self.stats.get('light', 0) + 1
-                self.results.append(dict(key=key, verdict='holds', s=round(dt, 3), canary=False, light=True,
+                self.results.append(dict(key=key, verdict='holds', s=round(dt, 3), canary=False, light=True, smt2=self._export(sv),
                                          path=''.join('T' if d[0] else 'F' for d in ctx.decisions[:ctx.pos])))
                 return
         t0 = time.time()
